@@ -46,6 +46,8 @@ def evalOp (cls : String) (s : Bool) (w : Nat) (s2 : Bool) (w2 : Nat) (c : Int) 
   | "conv" => toString (GoArith.conv s w2 x).toNat
   | "quoc" => showE (GoArith.quo s x yc)
   | "remc" => showE (GoArith.rem s x yc)
+  | "quox" => showE (GoArith.quo s yc y)
+  | "remx" => showE (GoArith.rem s yc y)
   | "shlc" => toString (GoArith.shlE x c.toNat).toNat
   | "shrc" => toString (GoArith.shrE s x c.toNat).toNat
   | _ => "bad-op"
